@@ -2019,7 +2019,24 @@ class Class(Object):
                 resolved_base = self.modules_collection.get_member(base_path)
                 if resolved_base.is_alias:
                     resolved_base = resolved_base.final_target
-            except (AliasResolutionError, CyclicAliasError, KeyError):
+                if resolved_base is self:
+                    # A class is never its own base: `from x import Base` followed by `class Base(Base)`.
+                    # The base is what the name was bound to before this class took the name over:
+                    # we can only tell when it was imported (the import is still recorded), otherwise it is unknown.
+                    name = base_path.rsplit(".", 1)[-1]
+                    previous_path = None
+                    if name in self.parent.imports:  # type: ignore[union-attr]
+                        previous_path = self.parent.imports[name]  # type: ignore[union-attr]
+                    elif self.parent.parent is not None and not self.parent.is_module:  # type: ignore[union-attr]
+                        # A nested class named like a class of an enclosing scope (`class Outer: class A(A): ...`).
+                        with suppress(NameResolutionError):
+                            previous_path = self.parent.parent.resolve(name)  # type: ignore[union-attr]
+                    # (Without a previous binding the class stays its own base, and is reported as a cycle.)
+                    if previous_path is not None:
+                        resolved_base = self.modules_collection.get_member(previous_path)
+                        if resolved_base.is_alias:
+                            resolved_base = resolved_base.final_target
+            except (AliasResolutionError, CyclicAliasError, KeyError, NameResolutionError):
                 logger.debug("Base class %s is not loaded, or not static, it cannot be resolved", base_path)
             else:
                 resolved_bases.append(resolved_base)
